@@ -1,6 +1,6 @@
 import vlib, common
 
-RULE = "window: the store's Mutate is parked so that an insertion is held between 'computed' and 'persisted'; membership (old event at old and current version, the event being inserted) and consistency queries are issued from other goroutines in that window; each must wait or answer from a consistent state: the observed schedule (which queries returned before the write, what version they saw) must be one the lock-discipline model permits, and every answer must verify against the issued snapshots or be the pre-insertion answer. thorough: the same under the Go race detector"
+RULE = "window: the store's Mutate is parked so that an insertion is held between 'computed' and 'persisted'; membership (old event at old and current version, the event being inserted) and consistency queries are issued from other goroutines in that window; each must wait or answer from a consistent state: the observed schedule (which queries returned before the write, what version they saw) must be one the lock-discipline model permits, and every answer must verify against the issued snapshots or be the pre-insertion answer. thorough: the same under the Go race detector failwrite: a store write that fails on a running node must not leave it answering from a half-applied insertion."
 CMDS = ['window', 'stress', 'failwrite']
 CASES = {'window': ('run_window_cases', 'C10_queries_see_consistent_state (Fsm/Window.v vs RaftNode.applyMu)')}
 
